@@ -325,8 +325,11 @@ def cbmc_cmd(job, gb, mode, trace=False):
     cmd = ["cbmc", gb, "--function", "harness", "--json-ui"] + STD_FLAGS
     if job.unwind:
         cmd += ["--unwind", str(job.unwind)]
-    if job.unwindset:
-        cmd += ["--unwindset", ",".join(job.unwindset)]
+    uws = list(job.unwindset)
+    if "mpi_model.c" in job.stubs:     # loops of the environment model have fixed, known bounds
+        uws += ["vt_type_of.0:13", "vt_count_kind.0:33", "MPI_Bcast.0:9"]
+    if uws:
+        cmd += ["--unwindset", ",".join(uws)]
     if job.object_bits:
         cmd += ["--object-bits", str(job.object_bits)]
     cmd += job.backend
@@ -424,7 +427,7 @@ def native_build(ctx, job, mode, extra_defs=()):
         srcs = [os.path.join(VERIF, "harness", job.harness)] + [os.path.join(VERIF, "stubs", s) for s in job.stubs]
         # units listed in job.units come from the native library (same sources, same flags)
         cmd = ["gcc", "-g", "-O0", "-w", "-fsanitize=address,undefined", "-fno-sanitize-recover=undefined",
-               "-o", exe] + srcs + cpp + [lib] + job.native_libs + ["-L/usr/lib/x86_64-linux-gnu/openmpi/lib", "-lmpi", "-lm"]
+               "-Wl,--allow-multiple-definition", "-o", exe] + srcs + cpp + [lib] + job.native_libs + ["-L/usr/lib/x86_64-linux-gnu/openmpi/lib", "-lmpi", "-lm"]
         r = subprocess.run(cmd, capture_output=True, text=True)
         if r.returncode != 0:
             raise RuntimeError("native build failed for %s:\n%s" % (job.oid, r.stderr[-4000:]))
